@@ -25,7 +25,7 @@ Lemma refresh_store c s r : fst (fst (refresh_step c s r)) = s.
 Proof.
   unfold refresh_step.
   destruct (authenticate_ip refresh_required (resolve c (r_cred r))) as [[actor level]|]; [|reflexivity].
-  destruct (ip_cert_admitted c (resolve c (r_cred r)) (r_dir_target r)) as [[|]|]; try reflexivity.
+  destruct (ip_cert_accepted c (resolve c (r_cred r)) (r_dir_target r)) as [[|]|]; try reflexivity.
   destruct (negb (r_post r)); [reflexivity|].
   destruct (empty actor); [reflexivity|].
   destruct (is_automation_user c actor (r_dir_target r)) as [[|]|]; try reflexivity.
@@ -50,7 +50,7 @@ Theorem refresh_identity_is_own c s r :
 Proof.
   intros Hok. pose proof (refresh_store c s r) as Hst. revert Hok Hst. unfold refresh_step.
   destruct (authenticate_ip refresh_required (resolve c (r_cred r))) as [[actor level]|] eqn:Ha; [|discriminate].
-  destruct (ip_cert_admitted c (resolve c (r_cred r)) (r_dir_target r)) as [[|]|]; try discriminate.
+  destruct (ip_cert_accepted c (resolve c (r_cred r)) (r_dir_target r)) as [[|]|]; try discriminate.
   destruct (r_post r) eqn:Hp; simpl negb; cbv iota; [|discriminate].
   destruct (empty actor) eqn:He; [discriminate|].
   destruct (is_automation_user c actor (r_dir_target r)) as [[|]|] eqn:Hu; try discriminate.
